@@ -257,10 +257,18 @@ static json run_one(json const& run, std::vector<std::string> const& inputs) {
       res["calls"] = calls;
       phase = "done";
     }
-  } catch (std::exception const& e) {
-    res["ok"] = false; res["what"] = e.what();
   } catch (...) {
-    res["ok"] = false; res["what"] = "non-std exception";
+    std::exception_ptr ep = std::current_exception();
+    std::string early, late; bool std_exc = false;
+    try { std::rethrow_exception(ep); } catch (std::exception const& e) { early = e.what(); std_exc = true; } catch (...) {}
+    res["ok"] = false; res["what"] = std_exc ? early : std::string("non-std exception");
+    // the handler of a caller whose reader and writer lived inside the try block: both are gone when the report is read.
+    // An error report must not point into memory that they owned.
+    try { h->drop_reader(); h->drop_writer(); } catch (...) { res["dtor_threw"] = true; }
+    if (std_exc) {
+      try { std::rethrow_exception(ep); } catch (std::exception const& e) { late = e.what(); } catch (...) {}
+      if (late != early) res["what_after_reader_gone"] = late;
+    }
   }
   res["phase"] = phase;
   // destruction of readers/writers must not throw or abort either
@@ -458,6 +466,10 @@ class CppModel:
                                 r = json.loads(line)
                             except json.JSONDecodeError:
                                 break
+                            if r.get("what_after_reader_gone") is not None:
+                                # the exception's text changed when the reader and writer were destroyed: it lives in memory they owned
+                                r.update(crashed=True, invalid_memory=True, rc=0, stderr="error report points into freed memory: what() gave %r while the reader existed and %r after it was destroyed"
+                                         % (str(r.get("what"))[:120], str(r.get("what_after_reader_gone"))[:120]))
                             results[r["id"]] = r
                             done += 1
                 self.n += done
